@@ -21,15 +21,15 @@ class System:
     def __init__(self, ctx, w, *, ids=None, mode=ACK, closure=False, cktype=ChecksumType.CRC_32, crc=False,
                  imm=True, seg_len=None, max_packet_len=2048, limits=2, S=None, M=2, K=0,
                  dst_name="/dst/file.bin", src_name="/src/file.bin", put_mode=None, put_closure=None,
-                 faults=("deliver", "drop", "dup"), delay_faults=True, indications=None):
+                 faults=("deliver", "drop", "dup"), delay_faults=True, indications=None, fault_table=None):
         self.ctx, self.w = ctx, w
         self.ids = ids or Ids(2, 2)
         self.mode, self.closure = mode, closure
         common = dict(mode=mode, closure=closure, cktype=cktype, crc=crc, seg_len=seg_len,
                       max_packet_len=max_packet_len, ack_limit=limits, nak_limit=limits,
                       check_limit=limits, immediate_nak=imm)
-        self.src = SrcRig(w, self.ids, indications=indications, **common)
-        self.dst = DestRig(w, self.ids, indications=indications, **common)
+        self.src = SrcRig(w, self.ids, indications=indications, fault_table=fault_table, **common)
+        self.dst = DestRig(w, self.ids, indications=indications, fault_table=fault_table, **common)
         self.S = S
         self.src.fs.add_source_file(src_name, S)
         self.src_name, self.dst_name = src_name, dst_name
